@@ -20,7 +20,7 @@ FM_LINES = ["title: Test", "key: 'it''s \"quoted\"...'", "list:", "  - a", "  - 
             "...", "dots: a...b", "md: '**bold** _em_ `code` [l](u)'", "- - -", "tabs:\there", "long: " + "word " * 30,
             "unicode: naïve 中文 😀", "block: |", "    indented text", "    ...", "--- not a delimiter", "url: http://x.y/z?a=1&b=2",
             " ---x", "anchors: &a *a", "name: Cafe\u0301 \u212b \u2126 \u1100\u1161 \ufb01 \uf900", "nbsp:\u00a0x\u200b", "q: \"it's\"", "date: 2024-01-01", "{% tag %}", "> quote", "1. item", "```"]
-BODIES = ["Body text here.\n", "# Heading\n\nSome   text with  spaces that is long enough to wrap when the width is small, really.\n",
+BODIES = ["Body text here.\n", "{% field %}\n- item 1\n- item 2\n{% /field %}\n", "<!-- t -->\n| a | b |\n|---|---|\n| 1 | 2 |\n<!-- /t -->\n\ntext\n", "# Heading\n\nSome   text with  spaces that is long enough to wrap when the width is small, really.\n",
           "- a\n- b\n\n1. x\n2. y\n", "Para one.\n\nPara \"two\" it's... fine.\n", "> quote\n\n```\ncode\n```\n"]
 
 
@@ -29,7 +29,7 @@ class C07(Prop):
     rule = ("cases: frontmatter blocks of 0..8 lines drawn from a pool (quotes, dots, Markdown syntax, blank and "
             "whitespace-only lines, trailing spaces, block scalars, tabs, long lines, and one of the non-LF characters "
             "str.splitlines() splits on: VT FF FS GS RS NEL LS PS lone-CR), LF or CRLF line ends, closed or unclosed, "
-            "x bodies (fixed pool + G-doc documents) x random points of the option product. Non-trivial: the "
+            "x bodies (fixed pool + G-doc documents of the core/tags/typo profiles, with the document's own line ends) x random points of the option product. Non-trivial: the "
             "frontmatter has >= 1 content line; distinct by hash of (frontmatter, body, options).")
     assumptions = ["the document starts with the '---' line (no blank lines before it) and the body does not itself start "
                    "with a '---' line"]
@@ -53,7 +53,7 @@ class C07(Prop):
             opening = r.choice(["---", "---", "--- "])
             body = r.choice(BODIES) if r.random() < 0.6 else None
             case = {"kind": "closed", "lines": lines, "nl": nl, "opening": opening, "closing": closing, "odd": repr(odd),
-                    "body": body, "body_seed": r.getrandbits(40), "gap": r.choice(["", "\n", "\n\n"]),
+                    "body": body, "body_seed": r.getrandbits(40), "body_profile": r.choice(["core", "tags", "tags", "typo"]), "gap": r.choice(["", "\n", "\n\n"]),
                     "opts": [rand_opts(r, widths=[0, 20, 88]), rand_opts(r)]}
             yield case
             if r.random() < 0.25:
@@ -74,7 +74,8 @@ class C07(Prop):
         Fn = F.replace("\r\n", "\n")
         if case["kind"] == "unclosed":
             return self._unclosed(case, col)
-        body = case["body"] if case["body"] is not None else gen_doc(case["body_seed"], "core", nblocks=(1, 3)).text
+        body = case["body"] if case["body"] is not None else \
+            gen_doc(case["body_seed"], case.get("body_profile", "core"), nblocks=(1, 3)).text
         B = case["gap"] + body
         text = F + B.replace("\n", nl) if nl == "\r\n" else F + B
         if self.split is not None:
@@ -110,7 +111,8 @@ class C07(Prop):
                               {"line": d[0] if d else None, "want": d[1] if d else None, "got": d[2] if d else None})
                 continue
             col.mon("independent")
-            alone = fm.fmt(B.replace("\r\n", "\n") if False else B, **o)
+            # the same body, with the same line ends as in the document
+            alone = fm.fmt(B.replace("\n", nl), **o)
             if isinstance(alone, fm.Raised):
                 continue
             if out != Fn + alone:
